@@ -243,7 +243,7 @@ def hist_dims(part):
 
 
 def _hist_point(idx):
-    vals = decode_point(idx, hist_dims(P))
+    vals = decode_point(idx, hist_dims)
     maxsize, (b1, d1, k1, late1), (b2, d2, k2, late2), retry2 = vals[:4]
     b3, d3, k3 = (vals[4][0], vals[4][1], vals[4][2]) if len(vals) > 4 else (0, 0, 0)
     return N._untraced(_hist_body)(maxsize, b1, d1, k1, late1, b2, d2, k2, late2, b3, d3, k3, retry2)
@@ -255,6 +255,9 @@ def c03_hist(idx: int) -> bool:
     post: _
     """
     return run(_hist_point, idx)
+
+
+DIMS = {"c03_hist": hist_dims}
 
 
 def JOBS(tier):
